@@ -1589,7 +1589,17 @@ class Interp:
         for vals, s in res:
             for o in self.call(cal, vals, e, s):
                 if forget is not None and o.kind == 'val':
-                    o = Out('val', o.val, o.st.set(forget, ('unk', 'vector after %s()' % cal.rsplit('::', 1)[-1])))
+                    after = ('unk', 'vector after %s()' % cal.rsplit('::', 1)[-1])
+                    if cal.rsplit('::', 1)[-1] in ('extend', 'extend_from_slice') and 'alloc::vec::Vec' in cal and len(vals) == 2:
+                        # vec.extend(seq) with a sequence whose elements are all known (an iterator over literal octets, whatever adaptor
+                        # type it has statically): afterwards the vector holds its old elements followed by those, in order (std: Extend
+                        # pushes every item the iterator yields; `&u8` items are copied)
+                        src = vals[1]
+                        while src[0] == 'call' and src[1].rsplit('::', 1)[-1] in ('into_iter', 'iter', 'copied', 'cloned') and len(src[2]) == 1:
+                            src = src[2][0]
+                        if (src[0] == 'lit' and isinstance(src[1], bytes)) or src[0] in ('vec', 'array'):
+                            after = ('concat', s.env.get(forget), src)
+                    o = Out('val', o.val, o.st.set(forget, after))
                 outs.append(o)
         return outs + abn
 
